@@ -285,14 +285,19 @@ class ZukoFlow(BaseTorchFlow):
     def log_prob(self, x, xp=torch_api):
         x = torch.as_tensor(x, dtype=self.dtype, device=self.device)
         x_prime, log_abs_det_jacobian = self.rescale(x)
-        return xp.asarray(
-            self._flow().log_prob(x_prime) + log_abs_det_jacobian
-        )
+        # As in sample/inverse: evaluation only, the result must not carry
+        # the autograd graph into the samplers (training uses loss_fn)
+        with torch.no_grad():
+            log_prob = self._flow().log_prob(x_prime)
+        return xp.asarray(log_prob + log_abs_det_jacobian)
 
     def forward(self, x, xp=torch_api):
         x = torch.as_tensor(x, dtype=self.dtype, device=self.device)
         x_prime, log_j_rescale = self.rescale(x)
-        z, log_abs_det_jacobian = self._flow().transform.call_and_ladj(x_prime)
+        with torch.no_grad():
+            z, log_abs_det_jacobian = self._flow().transform.call_and_ladj(
+                x_prime
+            )
         if is_numpy_namespace(xp):
             # Convert to numpy namespace if needed
             z = z.detach().numpy()
